@@ -60,6 +60,9 @@ def templates(cfg):
     from . import temporal
 
     out += temporal.templates_for("C07", cfg)
+    from . import gen
+
+    out += gen.templates_for("C07", cfg)  # compositions drawn from the typed pipeline grammar (pv/corpora/gen.py)
     return out
 
 
